@@ -18,7 +18,7 @@ func init() {
 		ID: "C13", Level: "exploration", PanicClause: "C13.panic",
 		Cases: func(tier string) int {
 			if tier == "quick" {
-				return 6000
+				return 12000
 			}
 			return 400000
 		},
